@@ -52,7 +52,8 @@ var profDurable = &Profile{
 var profSnap = &Profile{
 	Name: "C04-snap", MinOps: 3, MaxOps: 50, NColls: 2, MemPct: 20, Snaps: true,
 	Kinds: []wk{{OpSet, 26}, {OpSetR, 2}, {OpDel, 10}, {OpFlush, 8}, {OpEvict, 6}, {OpSetColl, 3}, {OpRmColl, 3}, {OpSnap, 11}, {OpSnapClose, 8},
-		{OpSnapRev, 4}, {OpSnapBad, 3}, {OpGet, 3}, {OpGetItem, 2}, {OpVisit, 4}, {OpMin, 1}, {OpClose, 1}, {OpTotals, 1}, {OpDel, 2}},
+		{OpSnapRev, 4}, {OpSnapBad, 3}, {OpGet, 3}, {OpGetItem, 2}, {OpVisit, 4}, {OpMin, 1}, {OpClose, 1}, {OpTotals, 1},
+		{OpMax, 1}, {OpExist, 1}, {OpNames, 1}, {OpLen, 1}, {OpBlock, 1}, {OpCopyTo, 1}, {OpDel, 2}},
 }
 
 var profRange = &Profile{
@@ -62,7 +63,7 @@ var profRange = &Profile{
 
 var profRevert = &Profile{
 	Name: "C08-revert", MinOps: 2, MaxOps: 40, NColls: 2, MemPct: 8,
-	Kinds: []wk{{OpSet, 30}, {OpDel, 8}, {OpFlush, 20}, {OpRevert, 20}, {OpReopen, 8}, {OpEvict, 3}, {OpSetColl, 2}, {OpRmColl, 2}, {OpGet, 2}},
+	Kinds: []wk{{OpSet, 30}, {OpDel, 8}, {OpFlush, 20}, {OpRevert, 20}, {OpReopen, 8}, {OpEvict, 3}, {OpSetColl, 2}, {OpRmColl, 2}, {OpWrite, 2}, {OpGet, 2}},
 }
 
 var profMonitor = &Profile{
